@@ -1,5 +1,6 @@
 import GoatSpec.Properties.C03
 import GoatSpec.Properties.C09
+import GoatSpec.Proofs.Patch
 /-! # C03 at patch granularity: the guard of `scope_guard_partial` carries over
 
 The patch-scope bookkeeping (mark arrays per scope key) only ever suppresses an insertion inside a
@@ -58,5 +59,378 @@ theorem patch_guard_partial (f : File) (ranges : List (Nat × Nat)) (mP mS : Mar
   rw [hmS, mem_sortNat] at hin
   rw [hmP, mem_sortNat]
   exact b.1 r0 hin
+
+/-! ## the patch-specific guarantee: a changed statement is joined to a tracking point of its own
+    block by changed / comment lines only -/
+open GoatSpec.Patch
+set_option linter.unusedVariables false
+
+/-- what is known about one patch scope of a state: marks are non-zero exactly on changed / comment
+    lines (inside the array), and every covered line (mark 2) has a witness — an event line `l0`
+    of the same scope key whose comment-adjusted line is a tracking position (or lies outside every
+    function), joined to the covered line by non-zero marks -/
+structure PS (env : Env) (st : MState) (k : Nat × Nat) (p : PatchScope) : Prop where
+  init : ∀ x, p.s < x → mkA p.s p.marks x ≠ 0 → flag env x = true
+  initC : ∀ x, p.s < x → x - p.s - 1 < p.marks.size → flag env x = true → mkA p.s p.marks x ≠ 0
+  vals : ∀ x, p.s < x → mkA p.s p.marks x ≤ 2
+  wit : ∀ j, p.s < j → mkA p.s p.marks j = 2 → ∃ l0 t0 r0, searchTrees env.trees l0 = some t0 ∧ t0.search l0 = k ∧ p.s < l0 ∧
+      skipComments env (env.comments.size + 1) l0 = .ok r0 ∧ (r0 ∈ st.multi ∨ searchScopes env.funcs r0 = 0) ∧
+      ∀ y, (j < y ∧ y < l0) ∨ (l0 < y ∧ y < j) → mkA p.s p.marks y ≠ 0
+
+def PInv (env : Env) (st : MState) : Prop := ∀ k p, st.patch.lookup k = some p → PS env st k p
+
+/-- marks only grow (non-zero stays non-zero, 2 stays 2), positions only grow -/
+def PMono (st st' : MState) : Prop :=
+  (∀ x ∈ st.multi, x ∈ st'.multi) ∧
+  ∀ k p, st.patch.lookup k = some p → ∃ p', st'.patch.lookup k = some p' ∧ p'.s = p.s ∧
+    ∀ x, p.s < x → (mkA p.s p.marks x = 2 → mkA p.s p'.marks x = 2) ∧ (mkA p.s p.marks x ≠ 0 → mkA p.s p'.marks x ≠ 0)
+
+theorem PMono.refl (st : MState) : PMono st st :=
+  ⟨fun _ h => h, fun k p h => ⟨p, h, rfl, fun _ _ => ⟨id, id⟩⟩⟩
+
+theorem PMono.trans {a b c : MState} (h1 : PMono a b) (h2 : PMono b c) : PMono a c := by
+  refine ⟨fun x hx => h2.1 x (h1.1 x hx), fun k p hp => ?_⟩
+  obtain ⟨p', hp', hs, hm⟩ := h1.2 k p hp
+  obtain ⟨p'', hp'', hs', hm'⟩ := h2.2 k p' hp'
+  refine ⟨p'', hp'', by rw [hs', hs], fun x hx => ?_⟩
+  have a1 := hm x hx
+  have a2 := hm' x (by rw [hs]; exact hx)
+  rw [hs] at a2
+  exact ⟨fun h => a2.1 (a1.1 h), fun h => a2.2 (a1.2 h)⟩
+
+/-- line `l` of scope key `k` is covered: a line `j0 ≤ l` of the scope's array is marked 2 and every
+    line from there up to `l` has a non-zero mark -/
+def Cov (st : MState) (k : Nat × Nat) (l : Nat) : Prop :=
+  ∃ p, st.patch.lookup k = some p ∧ ∃ j0, p.s < j0 ∧ j0 ≤ l ∧ mkA p.s p.marks j0 = 2 ∧
+    ∀ x, j0 < x → x ≤ l → mkA p.s p.marks x ≠ 0
+
+theorem Cov.mono {st st' : MState} {k : Nat × Nat} {l : Nat} (h : Cov st k l) (hm : PMono st st') : Cov st' k l := by
+  obtain ⟨p, hp, j0, a, b, c, d⟩ := h
+  obtain ⟨p', hp', hs, hmm⟩ := hm.2 k p hp
+  refine ⟨p', hp', j0, by rw [hs]; exact a, b, ?_, ?_⟩
+  · rw [hs]; exact (hmm j0 a).1 c
+  · intro x hx1 hx2; rw [hs]; exact (hmm x (by omega)).2 (d x hx1 hx2)
+
+theorem markInsert_patch (env : Env) (st st' : MState) (line : Nat) (h : markInsert env st line = .ok st') :
+    st'.patch = st.patch := by
+  unfold markInsert at h
+  split at h
+  · cases h
+  · split at h
+    · cases h; rfl
+    · split at h <;> (cases h; rfl)
+
+/-- a patch scope carried over to a state with more positions -/
+theorem PS.weaken {env : Env} {st st' : MState} {k : Nat × Nat} {p : PatchScope} (h : PS env st k p)
+    (hm : ∀ x ∈ st.multi, x ∈ st'.multi) : PS env st' k p := by
+  refine ⟨h.init, h.initC, h.vals, fun j hj h2 => ?_⟩
+  obtain ⟨l0, t0, r0, a, b, c, d, e, f⟩ := h.wit j hj h2
+  exact ⟨l0, t0, r0, a, b, c, d, e.imp (hm r0) id, f⟩
+
+/-- the part of `forceMarkInsert` (patch granularity) after the patch scope of the key is known -/
+theorem tail_patch (env : Env) (st st' : MState) (l : Nat) (t : TScope) (ht : searchTrees env.trees l = some t)
+    (key : Nat × Nat) (hkey : t.search l = key) (ps : PatchScope) (hlk : st.patch.lookup key = some ps)
+    (hinv : PInv env st)
+    (h : (match ps.canInsert l with
+        | .error e => .error e
+        | .ok false => .ok st
+        | .ok true =>
+          match markInsert env st l, ps.markInserted l with
+          | .ok st2, .ok ps2 =>
+            .ok { st2 with patch := (key, ps2) :: st2.patch.filter (fun kv => kv.1 != key) }
+          | .error e, _ => .error e
+          | _, .error e => .error e : Except MarkErr MState) = .ok st') :
+    PInv env st' ∧ PMono st st' ∧ (flag env l = true → Cov st' key l) := by
+  have hps := hinv key ps hlk
+  cases hci : ps.canInsert l with
+  | error e => rw [hci] at h; cases h
+  | ok b =>
+    rw [hci] at h
+    cases b with
+    | false =>
+      simp only at h; cases h
+      refine ⟨hinv, PMono.refl _, fun hf => ?_⟩
+      obtain ⟨hl, j0, a, b, c, d⟩ := canInsert_false ps l hci
+      refine ⟨ps, hlk, j0, a, b, c, fun x hx1 hx2 => ?_⟩
+      by_cases hxl : x = l
+      · subst hxl
+        -- l is inside the array (canInsert read it) and counts for a patch
+        unfold PatchScope.canInsert at hci
+        cases hg' : ps.get x with
+        | error e => rw [hg'] at hci; cases hci
+        | ok v => exact hps.initC x hl (get_ok ps x v hg').2.1 hf
+      · rw [d x hx1 (by omega)]; decide
+    | true =>
+      simp only at h
+      cases hmi : markInsert env st l with
+      | error e => rw [hmi] at h; cases h
+      | ok st2 =>
+        cases hmd : ps.markInserted l with
+        | error e => rw [hmi, hmd] at h; cases h
+        | ok ps2 =>
+          rw [hmi, hmd] at h
+          simp only at h; cases h
+          obtain ⟨r, hr, hrin, _, hmono⟩ := markInsert_own env st st2 l hmi
+          have hpatch := markInsert_patch env st st2 l hmi
+          obtain ⟨hs, he, hsz, hl, hch, hself⟩ := markInserted_spec ps ps2 l hmd
+          have keep : ∀ x, ps.s < x → (mkA ps.s ps.marks x = 2 → mkA ps.s ps2.marks x = 2) ∧
+              (mkA ps.s ps.marks x ≠ 0 → mkA ps.s ps2.marks x ≠ 0) := by
+            intro x hx
+            by_cases hne : mkA ps.s ps2.marks x = mkA ps.s ps.marks x
+            · rw [hne]; exact ⟨id, id⟩
+            · obtain ⟨a, b, _⟩ := hch x hx hne
+              rw [a, b]; exact ⟨fun _ => rfl, fun _ => by decide⟩
+          have hps2 : PS env ⟨st2.multi, st2.singles, st2.count, st2.visitedScopes,
+              (key, ps2) :: st2.patch.filter (fun kv => kv.1 != key)⟩ key ps2 := by
+            refine ⟨?_, ?_, ?_, ?_⟩
+            · intro x hx hnz
+              rw [hs] at hx hnz
+              by_cases hne : mkA ps.s ps2.marks x = mkA ps.s ps.marks x
+              · rw [hne] at hnz; exact hps.init x hx hnz
+              · exact hps.init x hx (by rw [(hch x hx hne).1]; decide)
+            · intro x hx hin hf
+              rw [hs] at hx hin ⊢; rw [hsz] at hin
+              exact (keep x hx).2 (hps.initC x hx hin hf)
+            · intro x hx
+              rw [hs] at hx ⊢
+              by_cases hne : mkA ps.s ps2.marks x = mkA ps.s ps.marks x
+              · rw [hne]; exact hps.vals x hx
+              · rw [(hch x hx hne).2.1]; decide
+            · intro j hj h2
+              rw [hs] at hj h2 ⊢
+              by_cases hne : mkA ps.s ps2.marks j = mkA ps.s ps.marks j
+              · rw [hne] at h2
+                obtain ⟨l0, t0, r0, a, b, c, d, e, f⟩ := hps.wit j hj h2
+                exact ⟨l0, t0, r0, a, b, c, d, e.imp (hmono r0) id, fun y hy => (keep y (by omega)).2 (f y hy)⟩
+              · obtain ⟨_, _, hrun⟩ := hch j hj hne
+                refine ⟨l, t, r, ht, hkey, hl, hr, hrin, fun y hy => ?_⟩
+                have : mkA ps.s ps.marks y = 1 := hrun y (by omega)
+                exact (keep y (by omega)).2 (by rw [this]; decide)
+          refine ⟨?_, ⟨hmono, ?_⟩, ?_⟩
+          · intro k p hk
+            simp only [lookup_cons_filter] at hk
+            by_cases hkk : k = key
+            · subst hkk
+              simp at hk; subst hk; exact hps2
+            · have hkk' : (k == key) = false := by simpa using hkk
+              simp only [hkk', Bool.false_eq_true, if_false] at hk
+              rw [hpatch] at hk
+              exact (hinv k p hk).weaken hmono
+          · intro k p hk
+            simp only [lookup_cons_filter]
+            by_cases hkk : k = key
+            · subst hkk
+              rw [hlk] at hk; cases hk
+              exact ⟨ps2, by simp, hs, keep⟩
+            · have hkk' : (k == key) = false := by simpa using hkk
+              simp only [hkk', Bool.false_eq_true, if_false]
+              rw [hpatch]
+              exact ⟨p, hk, rfl, fun _ _ => ⟨id, id⟩⟩
+          · intro hf
+            refine ⟨ps2, by simp, l, by rw [hs]; exact hl, Nat.le_refl _, ?_, fun x a b => by omega⟩
+            rw [hs]
+            have hin : l - ps.s - 1 < ps.marks.size := by
+              unfold PatchScope.markInserted at hmd
+              cases hg' : ps.get l with
+              | error e => rw [hg'] at hmd; cases hmd
+              | ok v => exact (get_ok ps l v hg').2.1
+            have hnz := hps.initC l hl hin hf
+            by_cases h1 : mkA ps.s ps.marks l = 1
+            · exact hself h1
+            · by_cases hne : mkA ps.s ps2.marks l = mkA ps.s ps.marks l
+              · rw [hne]
+                have := hps.vals l hl
+                omega
+              · exact (hch l hl hne).2.1
+
+/-- **one `forceMarkInsert` at patch granularity** keeps the invariant, lets marks and positions only
+    grow, and — when the line counts for a patch (changed or comment) — leaves the line covered -/
+theorem forceMark_patch (env : Env) (hg : env.gran = .patch) (st st' : MState) (l : Nat)
+    (hinv : PInv env st) (h : forceMark env st l = .ok st') :
+    PInv env st' ∧ PMono st st' ∧
+    (∀ t, searchTrees env.trees l = some t → flag env l = true → Cov st' (t.search l) l) := by
+  unfold forceMark at h
+  rw [hg] at h
+  simp only at h
+  split at h
+  · next hn => cases h; exact ⟨hinv, PMono.refl _, fun t ht => by rw [hn] at ht; cases ht⟩
+  · next t ht =>
+    generalize hkey : t.search l = key at h
+    cases hlk : st.patch.lookup key with
+    | some ps =>
+      rw [hlk] at h
+      simp only [Option.isNone_some, Bool.false_eq_true, if_false] at h
+      obtain ⟨a, b, c⟩ := tail_patch env st st' l t ht key hkey ps hlk hinv h
+      exact ⟨a, b, fun t' ht' hf => by rw [ht] at ht'; cases ht'; rw [hkey]; exact c hf⟩
+    | none =>
+      rw [hlk] at h
+      simp only [Option.isNone_none, if_true] at h
+      cases hnp : newPatchScope env t.s t.e with
+      | error e => rw [hnp] at h; cases h
+      | ok ps =>
+        rw [hnp] at h
+        simp only at h
+        obtain ⟨hs, he, hsz, hmk⟩ := Patch.newPatchScope_spec env t.s t.e ps hnp
+        -- the state with the fresh scope registered
+        have hlk1 : ({ st with patch := (key, ps) :: st.patch } : MState).patch.lookup key = some ps := by
+          simp [List.lookup]
+        have hfresh : PS env { st with patch := (key, ps) :: st.patch } key ps := by
+          refine ⟨?_, ?_, ?_, ?_⟩
+          · intro x hx hnz
+            rw [hs] at hx hnz; rw [hmk x hx] at hnz
+            by_cases hc : x < t.e ∧ flag env x = true
+            · exact hc.2
+            · simp [hc] at hnz
+          · intro x hx hin hf
+            rw [hs] at hx hin ⊢; rw [hsz] at hin
+            rw [hmk x hx]
+            have : x < t.e := by omega
+            simp [this, hf]
+          · intro x hx
+            rw [hs] at hx ⊢; rw [hmk x hx]; split <;> decide
+          · intro j hj h2
+            rw [hs] at hj h2; rw [hmk j hj] at h2
+            split at h2 <;> cases h2
+        have hinv1 : PInv env { st with patch := (key, ps) :: st.patch } := by
+          intro k p hk
+          by_cases hkk : k = key
+          · subst hkk
+            simp [List.lookup] at hk; subst hk; exact hfresh
+          · have hkk' : (k == key) = false := by simpa using hkk
+            simp only [List.lookup, hkk'] at hk
+            exact (hinv k p hk).weaken (fun _ hx => hx)
+        have hmono1 : PMono st { st with patch := (key, ps) :: st.patch } := by
+          refine ⟨fun _ hx => hx, fun k p hk => ?_⟩
+          have hkk : k ≠ key := by intro e; subst e; rw [hlk] at hk; cases hk
+          have hkk' : (k == key) = false := by simpa using hkk
+          exact ⟨p, by simp only [List.lookup, hkk']; exact hk, rfl, fun _ _ => ⟨id, id⟩⟩
+        obtain ⟨a, b, c⟩ := tail_patch env _ st' l t ht key hkey ps hlk1 hinv1 h
+        exact ⟨a, hmono1.trans b, fun t' ht' hf => by rw [ht] at ht'; cases ht'; rw [hkey]; exact c hf⟩
+
+theorem flag_of_changed (env : Env) (l : Nat) (h : env.isChanged l = .ok true) : flag env l = true := by
+  simp [flag, h]
+
+theorem stepEv_patch (env : Env) (hg : env.gran = .patch) (st st' : MState) (ev : Ev)
+    (hinv : PInv env st) (h : stepEv env st ev = .ok st') :
+    PInv env st' ∧ PMono st st' ∧
+    (∀ l, ev = .check l → env.isChanged l = .ok true → ∀ t, searchTrees env.trees l = some t → Cov st' (t.search l) l) := by
+  cases ev with
+  | check l =>
+    simp only [stepEv] at h
+    split at h
+    · cases h
+    · next hc => cases h; exact ⟨hinv, PMono.refl _, fun l' e hch => by cases e; rw [hc] at hch; cases hch⟩
+    · obtain ⟨a, b, c⟩ := forceMark_patch env hg st st' l hinv h
+      exact ⟨a, b, fun l' e hch t ht => by cases e; exact c t ht (flag_of_changed env l hch)⟩
+  | force l =>
+    obtain ⟨a, b, _⟩ := forceMark_patch env hg st st' l hinv h
+    exact ⟨a, b, fun l' e => by cases e⟩
+  | single l c =>
+    simp only [stepEv] at h
+    split at h
+    · cases h
+    · cases h; exact ⟨hinv, PMono.refl _, fun l' e => by cases e⟩
+    · cases h
+      refine ⟨fun k p hk => (hinv k p hk).weaken (fun _ hx => hx), ⟨fun _ hx => hx, fun k p hk => ⟨p, hk, rfl, fun _ _ => ⟨id, id⟩⟩⟩,
+        fun l' e => by cases e⟩
+
+theorem events_patch_fold (env : Env) (hg : env.gran = .patch) (evs : List Ev) :
+    ∀ (st st' : MState), PInv env st → evs.foldlM (stepEv env) st = .ok st' →
+      PInv env st' ∧ PMono st st' ∧
+      ∀ l t, Ev.check l ∈ evs → env.isChanged l = .ok true → searchTrees env.trees l = some t → Cov st' (t.search l) l := by
+  induction evs with
+  | nil =>
+    intro st st' hinv h
+    simp [pure, Except.pure] at h; cases h
+    exact ⟨hinv, PMono.refl _, fun l t hm => by cases hm⟩
+  | cons ev rest ih =>
+    intro st st' hinv h
+    obtain ⟨b', h1, h2⟩ := (foldlM_ok_cons _ _ _ _ _).mp h
+    obtain ⟨i1, m1, c1⟩ := stepEv_patch env hg st b' ev hinv h1
+    obtain ⟨i2, m2, c2⟩ := ih b' st' i1 h2
+    refine ⟨i2, m1.trans m2, fun l t hm hch ht => ?_⟩
+    rcases List.mem_cons.mp hm with e | e
+    · exact (c1 l e.symm hch t ht).mono m2
+    · exact c2 l t e hch ht
+
+/-- **patch granularity, fold level.** For every event list: if the fold terminates normally, then
+    for every changed `check` event line `l` (a changed statement the walk reaches) in scope key
+    `key` there is an event line `l0` of the same scope key whose comment-adjusted line `r0` is a
+    tracking position (or lies outside every function), and every line strictly between `l0` and
+    `l` is a changed line or a comment line: `l` and the tracking point of its block lie in one
+    patch. (That the point precedes the statement is the order of the walk, judged per input.) -/
+theorem events_patch (env : Env) (hg : env.gran = .patch) (evs : List Ev) (st' : MState)
+    (h : runEvents env evs = .ok st') (l : Nat) (t : TScope)
+    (hm : Ev.check l ∈ evs) (hch : env.isChanged l = .ok true) (ht : searchTrees env.trees l = some t) :
+    ∃ l0 t0 r0, searchTrees env.trees l0 = some t0 ∧ t0.search l0 = t.search l ∧
+      skipComments env (env.comments.size + 1) l0 = .ok r0 ∧ (r0 ∈ st'.multi ∨ searchScopes env.funcs r0 = 0) ∧
+      ∀ y, (l0 < y ∧ y < l) ∨ (l < y ∧ y < l0) → flag env y = true := by
+  have h0 : PInv env {} := by intro k p hk; simp [List.lookup] at hk
+  obtain ⟨hinv, _, hcov⟩ := events_patch_fold env hg evs {} st' h0 h
+  obtain ⟨p, hp, j0, a, b, c, d⟩ := hcov l t hm hch ht
+  have hps := hinv _ p hp
+  obtain ⟨l0, t0, r0, w1, w2, w3, w4, w5, w6⟩ := hps.wit j0 a c
+  refine ⟨l0, t0, r0, w1, w2, w4, w5, fun y hy => ?_⟩
+  apply hps.init y (by omega)
+  rcases hy with ⟨y1, y2⟩ | ⟨y1, y2⟩
+  · -- l0 < y < l
+    by_cases hyj : y < j0
+    · exact w6 y (Or.inr ⟨y1, hyj⟩)
+    · by_cases hyj' : y = j0
+      · subst hyj'; rw [c]; decide
+      · exact d y (by omega) (by omega)
+  · -- l < y < l0 (and j0 ≤ l)
+    exact w6 y (Or.inl ⟨by omega, y2⟩)
+
+/-- **C03, patch granularity (partial: statements in the positions the walk enters), the patch itself.**
+    For every abstract file and changed-line set on which the tracker terminates normally at patch
+    granularity: for a marking statement of a declared function's body that the statement walk
+    reaches, whose first line `l` is changed and lies in the innermost track scope `key`, the tracker
+    has put a tracking block before the comment-adjusted line `r0` of an event line `l0` of that same
+    block, and every line strictly between `l0` and `l` is changed or a comment line — the
+    statement and the tracking point lie in one contiguous patch of its block. -/
+theorem patch_run_guard_partial (f : File) (ranges : List (Nat × Nat)) (m : Marks)
+    (h : marks f .patch ranges = .ok m)
+    (lb rb : Nat) (p : Nat × Nat) (stmts : List Stmt)
+    (hd : Decl.funcDecl (some (lb, rb, some p, stmts)) ∈ f.decls)
+    (l : Nat) (hw : WalkedL l stmts)
+    (env : Env) (henv : mkEnv f .patch ranges = .ok env)
+    (hch : env.isChanged l = .ok true)
+    (t : TScope) (ht : searchTrees env.trees l = some t) :
+    ∃ l0 t0 r0, searchTrees env.trees l0 = some t0 ∧ t0.search l0 = t.search l ∧
+      skipComments env (env.comments.size + 1) l0 = .ok r0 ∧ (r0 ∈ m.multi ∨ searchScopes env.funcs r0 = 0) ∧
+      ∀ y, (l0 < y ∧ y < l) ∨ (l < y ∧ y < l0) → flag env y = true := by
+  unfold marks at h
+  rw [henv] at h
+  simp only at h
+  split at h
+  · cases h
+  · next st hst =>
+    cases h
+    have hg : env.gran = .patch := mkEnv_gran f .patch ranges env henv
+    have hev : Ev.check l ∈ fileEvents (fun l => env.changed.getD l false) f := by
+      apply List.mem_flatMap.mpr
+      refine ⟨_, hd, ?_⟩
+      simp only [declEvents]
+      apply List.mem_append.mpr; left
+      apply List.mem_append.mpr; right
+      exact walkedL_ev hw
+    obtain ⟨l0, t0, r0, h1, h2, h3, h4, h5⟩ := events_patch env hg _ st hst l t hev hch ht
+    exact ⟨l0, t0, r0, h1, h2, h3, h4.imp (fun hm => (mem_sortNat _ _).mpr hm) id, h5⟩
+
+/-- non-vacuity of `events_patch`: function block (2, 8); changed lines 4, 5 (one patch) and 7
+    (line 6 is unchanged: another patch): tracking points at 4 and 7; the statement on line 5 is
+    covered by the point of line 4 (no line in between), the one on line 7 by its own -/
+def examplePatchEnv : Env :=
+  { gran := .patch, n := 8,
+    changed := #[false, false, false, false, true, true, false, true, false],
+    comments := #[false, false, false, false, false, false, false, false, false],
+    funcs := [(1, 9), (2, 8)], trees := [.mk 2 8 []] }
+
+example : (runEvents examplePatchEnv [.check 4, .check 5, .check 7]).toOption.map (·.multi) = some [4, 7] := by
+  simp [runEvents, stepEv, forceMark, examplePatchEnv, searchTrees, TScope.search, searchChildren, markInsert,
+    skipComments, Env.isChanged, Env.isComment, searchScopes, TScope.s, TScope.e, List.zipIdx, bind, Except.bind,
+    Except.toOption, pure, Except.pure, newPatchScope, newPatchScope.fill, PatchScope.canInsert, PatchScope.canInsert.back,
+    PatchScope.get, PatchScope.markInserted, PatchScope.markInserted.down, PatchScope.markInserted.up, List.lookup]
 
 end GoatSpec.C03
